@@ -21,6 +21,7 @@ import (
 func init() {
 	verifRegister("HarnessShopcart_System", HarnessShopcart_System)
 	verifRegister("HarnessShopcart_SystemDeep", HarnessShopcart_SystemDeep)
+	verifRegister("HarnessShopcart_AWORSet", HarnessShopcart_AWORSet)
 }
 
 type scYield struct{}
@@ -144,4 +145,104 @@ func scSystem(n, rounds, events int) {
 			ctxs[i].Stop()
 		}
 	}
+}
+
+// The cart as shopcart.tla specifies it: the generated ANode (commands from an input queue applied to an add-wins
+// observed-remove set) over the REAL crdt resource holding an AWORSet, 3 nodes. The environment is a symbolic sequence
+// of events: an add or a remove of the one element arrives at node 1 or node 3, or a broadcast tick at node 1, 2 or 3
+// (the first event is an add at node 1). Once every command has been applied and every node has broadcast twice, all
+// replicas know every update: they must read equal carts.
+func HarnessShopcart_AWORSet() {
+	verifUnwind(1000000, false)
+	const n = 3
+	addr := func(id tla.Value) string { return "node:" + id.String() }
+	var ids []tla.Value
+	for i := 1; i <= n; i++ {
+		ids = append(ids, tla.MakeNumber(int32(i)))
+	}
+	iface0 := distsys.NewMPCalContextWithoutArchetype().IFace()
+	elem := tla.MakeString("1")
+	crdts := make([]distsys.ArchetypeResource, n)
+	ins := make([]chan tla.Value, n)
+	outs := make([]chan tla.Value, n)
+	for i := range ids {
+		var peers []tla.Value
+		for j := range ids {
+			if j != i {
+				peers = append(peers, ids[j])
+			}
+		}
+		self := ids[i]
+		crdts[i] = resources.NewCRDT(self, peers, addr, resources.AWORSet{})
+		res := crdts[i]
+		ins[i] = make(chan tla.Value, 8)
+		outs[i] = make(chan tla.Value, 100)
+		ctx := distsys.NewMPCalContext(self, ANode,
+			distsys.DefineConstantValue("NumNodes", tla.MakeNumber(n)),
+			distsys.DefineConstantValue("ElemSet", tla.MakeSet(elem)),
+			distsys.DefineConstantValue("BenchNumRounds", tla.MakeNumber(0)),
+			distsys.SetFairnessCounter(scYield{}),
+			distsys.EnsureArchetypeRefParam("crdt", resources.NewIncMap(func(index tla.Value) distsys.ArchetypeResource {
+				if !index.Equal(self) {
+					panic("wrong index")
+				}
+				return res
+			})),
+			distsys.EnsureArchetypeRefParam("in", resources.NewInputChan(ins[i])),
+			distsys.EnsureArchetypeRefParam("out", resources.NewOutputChan(outs[i])))
+		go func() { _ = ctx.Run() }()
+	}
+	read := func(i int) tla.Value {
+		v, _ := crdts[i].ReadValue(distsys.ArchetypeInterface{})
+		return v
+	}
+	settle := func(k int) {
+		for y := 0; y < k; y++ {
+			verifYield()
+		}
+	}
+	command := func(node int, remove bool) {
+		cmd := AddCmd(iface0)
+		if remove {
+			cmd = RemoveCmd(iface0)
+		}
+		ins[node] <- tla.MakeRecord([]tla.RecordField{{Key: tla.MakeString("cmd"), Value: cmd}, {Key: tla.MakeString("elem"), Value: elem}})
+	}
+	command(0, false)
+	settle(4)
+	for step := 0; step < 5; step++ {
+		switch ev := verifChoose("event", 7); ev {
+		case 0, 1, 2:
+			verifFireTimerN("Ticker", ev)
+		case 3:
+			command(0, false)
+		case 4:
+			command(0, true)
+		case 5:
+			command(2, false)
+		case 6:
+			command(2, true)
+		}
+		settle(6)
+		for i := 0; i < n; i++ {
+			verifAssert(tla.ModuleSubsetOrEqualSymbol(read(i), tla.MakeSet(elem)).AsBool(), "C16 shopcart (AWORSet): a cart holds only elements that were added")
+		}
+	}
+	for r := 0; r < 2; r++ {
+		for i := 0; i < n; i++ {
+			verifFireTimerN("Ticker", i)
+			settle(8)
+		}
+	}
+	applied := true
+	for i := 0; i < n; i++ {
+		applied = applied && len(ins[i]) == 0
+	}
+	if applied {
+		verifReach("all-applied")
+		for i := 1; i < n; i++ {
+			verifAssert(read(i).Equal(read(0)), "C16 shopcart (AWORSet): once every command is applied and every node has broadcast, replicas with equal knowledge read equal carts")
+		}
+	}
+	verifReach("end")
 }
